@@ -1,5 +1,5 @@
 // C16 correspondence harness, shared part: includes, parsing/printing, source and probe types.
-// The evaluation of one `s` line is spread over c16_a.cpp … c16_g.cpp (compiled in parallel); each part returns
+// The evaluation of one `s` line is spread over c16_a.cpp … c16_h.cpp (compiled in parallel); each part returns
 // nothing for a function name that is not its own.
 #ifndef VERIF_C16_COMMON_HPP
 #define VERIF_C16_COMMON_HPP
@@ -587,6 +587,7 @@ result eval_d(std::string const &fn, char k, params const &ps, std::vector<int> 
 result eval_e(std::string const &fn, char k, params const &ps, std::vector<int> const &v);
 result eval_f(std::string const &fn, char k, params const &ps, std::vector<int> const &v);
 result eval_g(std::string const &fn, char k, params const &ps, std::vector<int> const &v);
+result eval_h(std::string const &fn, char k, params const &ps, std::vector<int> const &v);
 }
 
 #endif
